@@ -14,7 +14,7 @@ const scorchPkg = "index/scorch"
 // take the given message type.
 type introducers struct {
 	Segment, Persist, Merge *FuncInfo
-	AllRootStores          []*FuncInfo
+	AllRootStores           []*FuncInfo
 }
 
 func findIntroducers(p *Prog) introducers {
